@@ -5,7 +5,10 @@
    = the zero value, wrong kind = error, missing member = zero value).
    JSON values are tagged tuples so that TLC can compare them:
      <<"null">>  <<"n", k>> (number token k)  <<"s", str>>  <<"b", bool>>  <<"a", Seq(value)>>
-     <<"o", Seq(<<key, value>>)>> with keys in increasing order (no duplicates in the modelled universe).
+     <<"o", Seq(<<key, value>>)>> with keys in increasing order (no duplicates in the modelled universe);
+     <<"x", text>> is a number literal outside the small tokens (1.5, 1e21, ...) as written, or - in a recorded
+     observation - a value the recorder cannot carry (invalid JSON, nesting too deep); the decoder specification
+     treats it as foreign, so that no value rule is ever based on it.
    Geometry = [t, l, body]; a coord is a Seq of number tokens; a nil multipoint member is NIL;
    NOGEOM is the nil geometry.  Layouts: "No","XY","XYZ","XYM","XYZM","L5","L6". *)
 EXTENDS Integers, Sequences, TLC
